@@ -162,6 +162,18 @@ Theorem C07_reregistration_preserves_invariant :
 Proof. intros k s c pre. exact (inv_step k s (ReReg c pre)). Qed.
 Print Assumptions C07_reregistration_preserves_invariant.
 
+(* ... and it is a REPLACEMENT, also when the registry is at MaxControlConnections: nobody is evicted, every other record is
+   untouched, the replacement is what GetControlConnection returns, the control count does not move, no transport is closed *)
+Theorem C07_reregistration_never_evicts :
+  forall (k : cfg) (ops : list op) (c : N) (r r0 : ctl),
+  let s := run Current k init ops in
+  by_conn s c = Some r0 ->
+  let s' := registry_rereg Current k c r s in
+  (forall c', c' <> c -> by_conn s' c' = by_conn s c') /\ by_conn s' c = Some r /\
+  size (reg s') = size (reg s) /\ closed s' = closed s /\ sess s' = sess s.
+Proof. intros k ops c r r0. exact (rereg_is_replacement k c r r0 _ (inv_run k ops init inv_init)). Qed.
+Print Assumptions C07_reregistration_never_evicts.
+
 Theorem C07_reregistration_nonvacuous :
   let s := run Current k0 init [Accept 1; Handshake 1 0 7 true; ReReg 1 9] in
   by_client s 9 = Some 1 /\ by_client s 7 = None /\ mem 1 (closed s) = false /\ counts s = (1, 1, 0).
